@@ -398,8 +398,11 @@ class Interp:
     def __init__(self, fi, program, inline=None, loop_policy=None,
                  noreturn=None, assume=None, max_inline=3, bind=None,
                  try_raises=True, extra_pure=(), self_class=None,
-                 exact_loops=False):
+                 exact_loops=False, virtual=None):
         self.fi = fi
+        # methods of the receiver that exist only in the reference (a private
+        # helper the live code has inlined): name -> reference function
+        self.virtual = virtual or {}
         self.P = program
         self.m = program.model
         self._exc_qual = {}   # short name of a caught class -> qualname
@@ -1292,6 +1295,16 @@ class Interp:
                                   env),) + tuple(args)
         if ft is None:
             ft = self.eval(f, env)
+        if ft[0] == "attr" and ft[2] in self.virtual \
+                and ft[1] == ("self",) and self.depth < self.max_inline:
+            return self.inline_call(self.virtual[ft[2]], ft[1], args, kws,
+                                    None, node)
+        if ft[0] == "call" and ft[1] == ("global", "functools.partial") \
+                and ft[2]:
+            # functools.partial(g, a)(b)  is  g(a, b)
+            args = tuple(ft[2][1:]) + tuple(args)
+            kws = tuple(k for k in ft[3] if k[0] != "<nth>") + tuple(kws)
+            ft = ft[2][0]
         if ft[0] == "global" and ft[1] not in self.m.functions \
                 and "." in ft[1]:
             # Class.m where m is inherited: the function that defines it
@@ -1533,6 +1546,8 @@ class Interp:
             return True
         if ft == ("global", "logging.getLogger"):
             return True
+        if ft == ("global", "functools.partial"):
+            return True    # building the partial object calls nothing
         if ft[0] == "global" and ft[1].startswith("builtins.") \
                 and ft[1][9:] in self.PURE_FUNCS:
             return True
